@@ -160,6 +160,17 @@ class SymStr(object):
     def split(self, *a):
         raise ModelGap("split of a symbolic string")
 
+    def zfill(self, width):
+        n = len(self.cps)
+        if n >= width:
+            return self
+        # (a leading sign is not handled: hex digit strings only)
+        return SymStr([48] * (width - n) + self.cps)
+
+    def rjust(self, width, fill=" "):
+        n = len(self.cps)
+        return self if n >= width else SymStr([builtins.ord(fill)] * (width - n) + self.cps)
+
     def __sym_int__(self, base=10):
         """int(s, base) for base 16/10 on symbolic digits: forks on the class of every character"""
         if base not in (10, 16):
@@ -247,3 +258,27 @@ def install(module):
     g["chr"] = shim_chr
     g["tuple"] = shim_tuple
     g["list"] = shim_list
+
+
+def hex_digits(x, upper):
+    """'%X' / '%x' of a non-negative symbolic int: forks on the number of digits and on letter/digit per position"""
+    e = cur()
+    if e.branch(x < 0):
+        raise ModelGap("hex formatting of a negative symbolic int")
+    nd = None
+    for d in range(1, 17):
+        if e.branch(x < 16**d):
+            nd = d
+            break
+    if nd is None:
+        raise ModelGap("hex formatting of more than 16 digits")
+    out = []
+    rest = x
+    for _ in range(nd):
+        q, r = rest // 16, rest % 16
+        if e.branch(r < 10):
+            out.append(r + 48)
+        else:
+            out.append(r + (55 if upper else 87))
+        rest = q
+    return SymStr(list(reversed(out))).simplify()
